@@ -66,3 +66,26 @@ Print Assumptions reval_leaves_no_saved_position.
 Definition ex_trace_a : trace := mkTrace "a" "f" 1 2 [0;1;2] [0;1;2] None [] [] [] [] [].
 Example wf_nonvacuous : cont_wf (mkCont [("a", ex_trace_a)] 1 []).
 Proof. split; [repeat constructor; intros []|]. intros k t [H|[]]. injection H as <- <-. reflexivity. Qed.
+
+(** for an expression of the read-only fragment (C04 T-ro: literals, names, arithmetic, comparison, logic,
+    bitwise, slice, if, do) on one trace: e@k evaluates e with the trace at index i+k (the saved position on
+    the stack) and leaves the interpreter state EXACTLY as it was — not only the positions
+    (proofs/RevalRo.v; real evaluator, any fuel) *)
+From WalModel.proofs Require ReadOnly ScanProofs RevalRo.
+Theorem reval_of_read_only_expression_is_exactly_neutral : forall lf f tid st0 t0,
+  tr_tid t0 = tid -> tr_virt t0 = [] ->
+  forall e k i, ReadOnly.is_ro e = true -> 0 <= i + k <= tr_max t0 ->
+  op_reval (eval lf (S f)) [e; VInt k] (ScanProofs.at_idx tid st0 t0 i) =
+  match eval lf (S f) e (RevalRo.shifted_state tid st0 t0 i (i + k)) with
+  | Ok v _ => Ok v (ScanProofs.at_idx tid st0 t0 i)
+  | Er er s => Er er s
+  | Unm w => Unm w
+  | Fuel => Fuel
+  end.
+Proof. exact RevalRo.reval_read_only. Qed.
+Print Assumptions reval_of_read_only_expression_is_exactly_neutral.
+
+Theorem shifted_state_is : forall tid st0 t0 i j, RevalRo.shifted_state tid st0 t0 i j =
+  upd_cont st0 (mkCont [(tid, set_index t0 j)] (c_ntraces (st_cont st0)) ([(tid, i)] :: c_stack (st_cont st0))).
+Proof. reflexivity. Qed.
+Print Assumptions shifted_state_is.
